@@ -101,11 +101,26 @@ static size_t MSET_REC;
 static uint64_t cb_count;
 static size_t cb_maxused;
 
+/* Interference probe: the user callback (called by the library for every token it processes) uses a SECOND,
+ * independent parser on its own small document - a lookup that has to skip a nested container, a getter, a leave.
+ * Independent objects cannot interfere (C17), so neither this private traversal nor the call that is in progress on
+ * the parser under test may be disturbed; a library that parks call-local state in static storage breaks here. */
+static const uint8_t probe_doc[] = { 0x40, 0x14, 0x01, 'a', 0x40, 0x14, 0x01, 'b', 0x42, 0x10, 0x01, 0x10, 0x02, 0x43, 0x41, 0x14, 0x01, 't', 0x10, 0x05, 0x41 };
+static binson_state probe_state[3];
+static binson_parser probe_parser;
+static int probe_failed;
+static uint64_t probe_runs;
 static void count_cb(binson_parser *p, uint16_t ns, void *ctx)
 {
     (void) ns; (void) ctx;
     cb_count++;
     if (p->buffer_used > cb_maxused) cb_maxused = p->buffer_used;
+    if (cb_count > 2) return;       /* the first two tokens of every call are enough: the call then goes on with whatever the probe left behind */
+    binson_parser *q = &probe_parser;
+    if (!q->state) { q->state = probe_state; q->max_depth = 3; if (!binson_parser_init_object(q, probe_doc, sizeof probe_doc)) probe_failed = 1; }
+    probe_runs++;
+    if (!binson_parser_reset(q) || !binson_parser_go_into_object(q) || binson_parser_field(q, "s") || !binson_parser_field(q, "t") ||
+        binson_parser_get_integer(q) != 5 || !binson_parser_leave_object(q) || q->error_flags != BINSON_ERROR_NONE) probe_failed = 2;
 }
 
 typedef struct { char why[200]; char sigctx[120]; } mismatch;
@@ -400,7 +415,12 @@ static bool do_op(mstate *m, op_t op, mismatch *mm, bool counting)
         if (op == 'n' && before.after_field && before.pending < 0 && before.cur < 0) vf_count(CT_FIELD_MISS_THEN_NEXT, 1);
     }
     bool ok = true;
-    if (r != e.ret) {
+    if (probe_failed) {
+        snprintf(mm->why, sizeof mm->why, "a second, independent parser used from the token callback during this call misbehaved (code %d): the two objects interfere", probe_failed);
+        snprintf(mm->sigctx, sizeof mm->sigctx, "interference");
+        probe_failed = 0;
+        ok = false;
+    } else if (r != e.ret) {
         snprintf(mm->why, sizeof mm->why, "returned %s, reference cursor says %s", r ? "true" : "false", e.ret ? "true" : "false");
         snprintf(mm->sigctx, sizeof mm->sigctx, "ret=%d", r);
         ok = false;
